@@ -71,7 +71,7 @@ def build_harness(timeout=1500):
         if not os.path.exists(lock) and os.path.exists(src):
             import shutil
             shutil.copy(src, lock)
-        env = dict(os.environ, CARGO_NET_OFFLINE='true', RUSTFLAGS=os.environ.get('RUSTFLAGS', '') + ' --cfg cteenergymodel_verif -Awarnings')
+        env = dict(os.environ, CARGO_NET_OFFLINE='true', RUSTFLAGS=os.environ.get('RUSTFLAGS', '') + ' -Awarnings')
         p = subprocess.run(['timeout', str(timeout), 'cargo', 'build', '--release', '--offline'],
                            cwd=HARNESS, stdout=subprocess.PIPE, stderr=subprocess.STDOUT, text=True, env=env)
         return p.returncode == 0, p.stdout
